@@ -70,6 +70,10 @@ func (p *testParser) classicTest(fval string, pastAndOr bool) syntax.TestExpr {
 			p.errf("%s must be followed by an expression", opStr)
 		}
 	default:
+		if _, ok := left.(*syntax.Word); !ok {
+			// e.g. [ -n a = b ]: an operator after a complete expression
+			p.errf("too many arguments")
+		}
 		b.Y = p.followWord(opStr)
 	}
 	return b
